@@ -710,6 +710,8 @@ def fam_c17(R, n):
               '#[token("c", |_| 0u32)]\n    C(pub(crate) u32)' + ('' if k % 3 == 0 else ',')]
         src = '\n'.join(attrs + [head + (' ' + where if where and '\n' not in where else '')] + ([where] if '\n' in where else []) + ['{'] + ['    ' + v for v in vs] + ['}'])
         out.append(dict(family='c17-headers', src=src, meta={}))
+    # an output that contains U+FFFD itself (what a lossy decoder substitutes for bytes that are not UTF-8)
+    out.append(dict(family='c17-replacement-char', meta={}, src='#[derive(Debug, Logos)]\n/// a replacement character: \ufffd (twice: \ufffd)\npub enum R0 {\n    #[token("a")]\n    A,\n    #[regex("b+")]\n    B,\n}'))
     return out
 
 
